@@ -21,7 +21,7 @@ Definition open_site (W : world) (E : ectx) (s : st) (id : eid) (p : string) (xi
     at_id E id (EOpen p inputs)
     /\ alookup p (w_provs W) = Some pv
     /\ memo_get (inputs_id id) (memo s) = Some (Some iv)
-    /\ export big_fuel iv = Some xin
+    /\ export_t iv = Some xin
     /\ contains_unknowns iv = false
     /\ x_has_unknown xin = false
     /\ fst (validate (AccIn (pv_in pv)) iv) = true
@@ -121,9 +121,9 @@ Proof.
   - apply pres_ret.
   - change (preserves (R E g)
       (pv <- eval_access W f E p ;;
-       let '(s, u, sc) := to_string big_fuel pv in
+       let '(s, u, sc) := to_string (ts_need pv) pv in
        interp_loop W f E r (if u then acc +++ text else acc +++ text +++ s) (unk || u) (sec || sc))).
-    apply pres_bind; [apply Ha|]. intros pv. destruct (to_string big_fuel pv) as [[s u] sc]. apply IH.
+    apply pres_bind; [apply Ha|]. intros pv. destruct (to_string (ts_need pv) pv) as [[s u] sc]. apply IH.
   - change (preserves (R E g) (interp_loop W f E r (acc +++ text) unk sec)). apply IH.
 Qed.
 
@@ -176,7 +176,7 @@ Lemma open_site_ok2 E s1 id pname inputs p iv (failed : bool) sx ux m :
   memo_post (inputs_id id) (iv, true) s1 ->
   contains_unknowns iv = false ->
   w_check W = false ->
-  export big_fuel iv = Some (XObj sx ux m) ->
+  export_t iv = Some (XObj sx ux m) ->
   site_ok W E s1 (EvOpen id pname (XObj sx ux m) (ec_root E) (ec_name E)).
 Proof.
   intros Hid Hprov Hpost Hmemo Hunk Hchk Hx. unfold site_ok, open_site.
@@ -231,7 +231,7 @@ Proof.
   apply orb_false_iff in Hgate. destruct Hgate as [Hgate Hchk].
   apply orb_false_iff in Hgate. destruct Hgate as [Hok Hunk].
   apply negb_false_iff in Hok. subst ok.
-  destruct (export big_fuel iv) as [[sx ux sc|sx ux l|sx ux m]|] eqn:Hx;
+  destruct (export_t iv) as [[sx ux sc|sx ux l|sx ux m]|] eqn:Hx;
     [apply Lerr, HP1|apply Lerr, HP1| |apply Loof, HP1].
   apply hoare_call_emit2 with (P' := T E id s).
   - intros s1 (Hs1 & Hpost & Hmemo). apply T_open; [exact Hpre|exact Hs1|].
@@ -322,7 +322,7 @@ Proof.
       destruct (json_parse s0); [pleaf|oof_case|oof_case].
     + (* EToString *)
       apply pres_bind; [apply IHe', (child_at _ _ _ (IIdx 0) x Hid); reflexivity|]. intros v.
-      destruct (to_string big_fuel v) as [[s0 unk] sec]. destruct unk; pleaf.
+      destruct (to_string (ts_need v) v) as [[s0 unk] sec]. destruct unk; pleaf.
     + (* EToB64 *)
       eapply pres_bind_typed; [apply IHt|apply (child_at _ _ _ (IIdx 0) x Hid); reflexivity|]. intros [v ok].
       destruct (negb ok); [pleaf|]. cbv zeta. destruct (contains_unknowns v); [pleaf|].
@@ -349,8 +349,8 @@ Proof.
     intros E p g. rewrite eval_access_S. destruct p as [|a0 rest]; [pleaf|]. cbv zeta.
     assert (preserves (R E g) (walk W f E (EObj (ec_values E)) false (ec_base E) (ec_name E, []) (a0 :: rest))) as Hw
       by (apply IHw; apply at_root).
-    assert (forall c0, preserves (R E g) (let '(c, n) := value_access big_fuel c0 rest in add_err n ;;; ret c)) as Hva
-      by (intros c0; destruct (value_access big_fuel c0 rest) as [c n]; oof_case).
+    assert (forall c0, preserves (R E g) (let '(c, n) := value_access (va_need c0 rest) c0 rest in add_err n ;;; ret c)) as Hva
+      by (intros c0; destruct (value_access (va_need c0 rest) c0 rest) as [c n]; oof_case).
     destruct (object_key a0) as [k|]; [|exact Hw].
     repeat (lazymatch goal with
             | |- preserves _ (match ?x with _ => _ end) => destruct x
@@ -358,8 +358,8 @@ Proof.
   - (* walk *)
     intros E rx rsec rbase rid accs g Hid. rewrite walk_S.
     destruct accs as [|a rest]; [apply IHe', Hid|].
-    assert (forall v, preserves (R E g) (let '(c, n) := value_access big_fuel v (a :: rest) in add_err n ;;; ret c)) as Hva
-      by (intros c0; destruct (value_access big_fuel c0 (a :: rest)) as [c n]; oof_case).
+    assert (forall v, preserves (R E g) (let '(c, n) := value_access (va_need v (a :: rest)) v (a :: rest) in add_err n ;;; ret c)) as Hva
+      by (intros c0; destruct (value_access (va_need c0 (a :: rest)) c0 (a :: rest)) as [c n]; oof_case).
     destruct rx; try (apply pres_bind; [apply IHe', Hid|apply Hva]); try oof_case.
     + (* EArr *) destruct (array_index a _) as [i|] eqn:Hai; [|oof_case].
       apply IHw. apply (child_at _ _ _ (IIdx i) _ Hid). cbn [child].
